@@ -8,7 +8,10 @@ naturals.  `tablesOf y` are the abstract tables a `By` denotes (null sub-table =
 `cstrOf v rva` the C string the view reads at `rva`, `Export.abs` forgets the reference,
 `y.nameStr h` is the name of hint `h` as bytes.  The functional theorems need no hypothesis at all;
 the reference theorems need `y.WF`, which `Exports::by` establishes (`C08_by`).  The format agnostic
-wrappers run the same code on the view chosen by `wrapFromBytes` (`C08_wrappers`).
+wrappers run on the view chosen by `wrapFromBytes` (`C08_wrappers`); their own model — three of
+their iterators are hand-written twins, not forwards — is `Model/WrapExports.lean`, proved equal to
+the functions below in `Thm/C19Wrap.lean` (`C19_wrap_iter`, `C19_wrap_iter_names`,
+`C19_wrap_iter_name_indices`, `C19_wrap_by_forwards`, `C19_wrap_get_export`).
 -/
 namespace Pelite.Exports
 open Pelite.Pe
@@ -192,6 +195,36 @@ theorem C08_import (y : By) (i : ImportQ) :
         | .byOrdinal o => Spec.ordinal (tablesOf y) (cstrOf y.exp.v) o) :=
   ⟨by cases i <;> rfl, import_abs y i⟩
 
+/-- On ANY table — no `Spec.nameDetermined`, no sortedness — `hint_name` never answers an entry of a
+different name: an `Ok` answer is `hint h'` for an `h'` whose name is `q` (`h' = h` when the hint was
+right, else the entry the binary search found, `C08_name_sound`). -/
+theorem C08_hint_name_sound (y : By) (h : Nat) (q : List Nat) (x : Export) (hx : y.hintName h q = .ok x) :
+    ∃ h', h' < y.names.cnt ∧ y.nameStr h' = .ok q ∧ y.hint h' = .ok x := by
+  rw [hintName_eq] at hx
+  split at hx
+  next hc => exact ⟨h, nameStr_ok_lt hc.2, hc.2, hx⟩
+  next => exact C08_name_sound y q x hx
+
+/-- … and so for an import descriptor, on any table: `ByName` answers an entry named `q`, `ByOrdinal`
+the entry `o − base` of the address table. -/
+theorem C08_import_sound (y : By) (i : ImportQ) (x : Export) (hx : y.import i = .ok x) :
+    match i with
+    | .byName _ q => ∃ h', h' < y.names.cnt ∧ y.nameStr h' = .ok q ∧ y.hint h' = .ok x
+    | .byOrdinal o => y.exp.base ≤ o ∧ o - y.exp.base < y.fns.cnt ∧ y.index (o - y.exp.base) = .ok x := by
+  cases i with
+  | byName h q => exact C08_hint_name_sound y h q x hx
+  | byOrdinal o =>
+    have h1 : y.ordinal o = .ok x := hx
+    unfold By.ordinal at h1
+    split at h1
+    · cases h1
+    next hb =>
+      refine ⟨by omega, ?_, h1⟩
+      unfold By.index at h1
+      split at h1
+      · assumption
+      · cases h1
+
 /-- name_lookup i: `ByName` of the first hint whose index is `i` (with the name at that hint; Bounds
 if the name table is shorter), else `ByOrdinal((i + base) mod 2^16)`. -/
 theorem C08_name_lookup (y : By) (i : Nat) :
@@ -205,6 +238,109 @@ theorem C08_get_export (v : View) (q : Query) (x : Export) (h : getExport v q = 
        | .name n => y.name n
        | .ordinal o => y.ordinal o
        | .import i => y.import i) = .ok x := getExport_ok h
+
+/-- Which answer an entry of the address table gets — all four cases, as equalities (so both
+directions): beyond the table Bounds; a hole (RVA 0) Null; an RVA inside the directory's extent the
+forwarder string read there, or the error of that read (`C08_forwarder_error`); any other RVA the symbol. -/
+theorem C08_index_cases (y : By) (i : Nat) :
+    (y.fns.cnt ≤ i → y.index i = .err .bounds) ∧
+    (i < y.fns.cnt → y.fnAt i = 0 → y.index i = .err .null) ∧
+    (i < y.fns.cnt → y.fnAt i ≠ 0 → (y.exp.ddVA ≤ y.fnAt i ∧ y.fnAt i < y.exp.ddVA + y.exp.ddSize) →
+      y.index i = (y.exp.v.dervaCStr (.rva (y.fnAt i))).bind fun c => .ok (.forward c)) ∧
+    (i < y.fns.cnt → y.fnAt i ≠ 0 → ¬ (y.exp.ddVA ≤ y.fnAt i ∧ y.fnAt i < y.exp.ddVA + y.exp.ddSize) →
+      y.index i = .ok (.symbol ⟨y.fns.off + 4 * i, 4, 4⟩)) := index_cases y i
+
+/-- a forwarder whose string cannot be read reports the error of the string read (never a symbol) -/
+theorem C08_forwarder_error (y : By) (i : Nat) (hi : i < y.fns.cnt) (h0 : y.fnAt i ≠ 0)
+    (hin : y.exp.ddVA ≤ y.fnAt i ∧ y.fnAt i < y.exp.ddVA + y.exp.ddSize) (er : Err)
+    (hc : y.exp.v.dervaCStr (.rva (y.fnAt i)) = .err er) : y.index i = .err er := by
+  rw [(C08_index_cases y i).2.2.1 hi h0 hin, hc]
+  rfl
+
+/-- an ordinal: Bounds below the base and beyond the table, Null for a hole -/
+theorem C08_ordinal_errors (y : By) (o : Nat) :
+    (o < y.exp.base → y.ordinal o = .err .bounds) ∧
+    (y.exp.base ≤ o → y.fns.cnt ≤ o - y.exp.base → y.ordinal o = .err .bounds) ∧
+    (y.exp.base ≤ o → o - y.exp.base < y.fns.cnt → y.fnAt (o - y.exp.base) = 0 → y.ordinal o = .err .null) ∧
+    (∀ er, y.ordinal o = .err er → er = .bounds ∨ er = .null ∨
+      (o - y.exp.base < y.fns.cnt ∧ y.exp.v.dervaCStr (.rva (y.fnAt (o - y.exp.base))) = .err er)) :=
+  ordinal_errors y o
+
+/-- get_export, the failure direction: the answer is the first failure of `exports()`, `by()`, the
+lookup — in that order — as equalities (with `C08_get_export`: the complete behaviour). -/
+theorem C08_get_export_cases (v : View) (q : Query) :
+    (∀ er, tryFrom v = .err er → getExport v q = .err er) ∧
+    (∀ e er, tryFrom v = .ok e → e.by = .err er → getExport v q = .err er) ∧
+    (∀ e y, tryFrom v = .ok e → e.by = .ok y →
+      getExport v q = match q with
+        | .name n => y.name n
+        | .ordinal o => y.ordinal o
+        | .import i => y.import i) := by
+  unfold getExport
+  refine ⟨?_, ?_, ?_⟩
+  · intro er h; rw [h]; rfl
+  · intro e er h1 h2; rw [h1]; show e.by.bind _ = _; rw [h2]; rfl
+  · intro e y h1 h2; rw [h1]; show e.by.bind _ = _; rw [h2]; rfl
+
+/-- … and conversely every error of `get_export` is one of those three. -/
+theorem C08_get_export_err (v : View) (q : Query) (er : Err) (h : getExport v q = .err er) :
+    tryFrom v = .err er ∨ (∃ e, tryFrom v = .ok e ∧ e.by = .err er) ∨
+    (∃ e y, tryFrom v = .ok e ∧ e.by = .ok y ∧ y.exp.v = v ∧ y.WF ∧
+      (match q with
+       | .name n => y.name n
+       | .ordinal o => y.ordinal o
+       | .import i => y.import i) = .err er) := by
+  rcases tryFrom_okOrErr v with ⟨e, he⟩ | ⟨e', he⟩
+  · rcases by_okOrErr e with ⟨y, hy⟩ | ⟨e'', hy⟩
+    · right; right
+      obtain ⟨hev, _, _⟩ := tryFrom_ok he
+      obtain ⟨hye, hw⟩ := by_ok hy
+      refine ⟨e, y, he, hy, by rw [hye, hev], hw, ?_⟩
+      rw [← (C08_get_export_cases v q).2.2 e y he hy]; exact h
+    · right; left
+      rw [(C08_get_export_cases v q).2.1 e e'' he hy] at h
+      cases h
+      exact ⟨e, he, hy⟩
+  · left
+    rw [(C08_get_export_cases v q).1 e' he] at h
+    cases h
+    exact he
+
+/-- No export directory — no entry 0 in the data-directory array, or entry 0 with RVA 0 — answers
+Null for every query; an ordinal that is below the base or beyond the table answers Bounds, a hole
+Null (through `get_export`, whatever the view). -/
+theorem C08_get_export_errors (v : View) (q : Query) :
+    (v.dataDir 0 = none → getExport v q = .err .null) ∧
+    (∀ sz, v.dataDir 0 = some (0, sz) → getExport v q = .err .null) ∧
+    (∀ e y o, tryFrom v = .ok e → e.by = .ok y →
+      (o < y.exp.base ∨ y.fns.cnt ≤ o - y.exp.base → getExport v (.ordinal o) = .err .bounds) ∧
+      (y.exp.base ≤ o → o - y.exp.base < y.fns.cnt → y.fnAt (o - y.exp.base) = 0 →
+        getExport v (.ordinal o) = .err .null)) := by
+  refine ⟨?_, ?_, ?_⟩
+  · intro hd
+    apply (C08_get_export_cases v q).1
+    unfold tryFrom; rw [hd]
+  · intro sz hd
+    apply (C08_get_export_cases v q).1
+    unfold tryFrom; rw [hd]
+    show (v.derva (.rva 0) 40 4).bind _ = _
+    unfold View.derva
+    rw [at_rva, slice_null]
+    rfl
+  · intro e y o he hy
+    have hq := (C08_get_export_cases v (.ordinal o)).2.2 e y he hy
+    obtain ⟨h1, h2, h3, _⟩ := C08_ordinal_errors y o
+    refine ⟨?_, ?_⟩
+    · intro hc
+      rw [hq]
+      rcases hc with hc | hc
+      · exact h1 hc
+      · by_cases hb : o < y.exp.base
+        · exact h1 hb
+        · exact h2 (by omega) hc
+    · intro hb hi h0
+      rw [hq]
+      exact h3 hb hi h0
 
 /-- get_proc_address: `rva_to_va` of the symbol's RVA; Null for a forwarder; the lookup's error otherwise. -/
 theorem C08_get_proc_address (v : View) (q : Query) :
@@ -371,5 +507,62 @@ table, its entry is the hole functions[1] = 0, and `name "b"` answers Null. -/
 theorem C08_name_null_iff_counterexample :
     demoBy.checkSorted = .ok true ∧ demoBy.nameStr 1 = .ok [98] ∧ demoBy.name [98] = .err .null ∧
     demoBy.hint 1 = .err .null := by decide +kernel
+
+/-! ### non-vacuity of the "any table" theorems: an UNSORTED table with a DUPLICATE name
+
+`demoImg` with the name pointer table `[272 "c", 272 "c", 268 "a"]` and the ordinal table `[0, 3, 2]`:
+not sorted ("c" before "a"), "c" twice (entries 0 and 3), "a" a forwarder (entry 2). -/
+
+def demoImg2 : Img :=
+  ⟨((((demoImg.bytes.set! 248 16).set! 252 16).set! 256 12).set! 262 3).set! 264 2, 0⟩
+def demoView2 : View := ⟨demoImg2, .pe32, .view, 0x400000⟩
+def demoBy2 : By := ⟨⟨demoView2, 192, 86, 192⟩, ⟨232, 4, false⟩, ⟨248, 3, false⟩, ⟨260, 3, false⟩⟩
+
+/-- the image is accepted and `exports()?.by()?` yields `demoBy2`; its tables are as described:
+`check_sorted` answers false, `Spec.nameDetermined` fails -/
+example : (fromBytes .pe32 .view demoImg2).isOk = true ∧
+    (tryFrom demoView2).bind (fun e => e.by.bind fun y => .ok (e.ddVA, e.ddSize, e.off, y.fns, y.names, y.idx)) =
+      .ok (192, 86, 192, ⟨232, 4, false⟩, ⟨248, 3, false⟩, ⟨260, 3, false⟩) ∧
+    (tablesOf demoBy2).names = [272, 272, 268] ∧ (tablesOf demoBy2).idx = [0, 3, 2] ∧
+    demoBy2.nameStr 0 = .ok [99] ∧ demoBy2.nameStr 1 = .ok [99] ∧ demoBy2.nameStr 2 = .ok [97] ∧
+    demoBy2.checkSorted = .ok false ∧ Spec.sorted (tablesOf demoBy2) (cstrOf demoView2) = false ∧
+    Spec.nameDetermined (tablesOf demoBy2) (cstrOf demoView2) = false := by decide +kernel
+
+/-- `C08_name_linear` on it: the FIRST of the two "c" (hint 0, entry 0); `C08_name_sound`: the binary
+search answers the OTHER "c" (hint 1, entry 3) — a different entry, but one named "c" all the same;
+completeness is what the unsorted table loses: "a" is a name (hint 2, found by the linear search as
+the forwarder) and the binary search reports Null; `hint_name` with the right hint needs no search,
+with a wrong hint it inherits the binary search's answer. -/
+example :
+    demoBy2.nameLinear [99] = demoBy2.hint 0 ∧ demoBy2.hint 0 = .ok (.symbol ⟨232, 4, 4⟩) ∧
+    demoBy2.name [99] = demoBy2.hint 1 ∧ demoBy2.hint 1 = .ok (.symbol ⟨244, 4, 4⟩) ∧
+    demoBy2.nameLinear [97] = .ok (.forward ⟨274, 4, 1⟩) ∧ demoBy2.name [97] = .err .null ∧
+    demoBy2.hintName 2 [97] = .ok (.forward ⟨274, 4, 1⟩) ∧ demoBy2.hintName 0 [97] = .err .null ∧
+    demoBy2.hintName 0 [99] = .ok (.symbol ⟨232, 4, 4⟩) ∧ demoBy2.hintName 2 [99] = .ok (.symbol ⟨244, 4, 4⟩) ∧
+    demoBy2.import (.byName 2 [99]) = .ok (.symbol ⟨244, 4, 4⟩) := by decide +kernel
+
+/-- the theorems instantiated (no hypothesis about the table to discharge) -/
+example : ∃ hn, hn < demoBy2.names.cnt ∧ demoBy2.nameStr hn = .ok [99] ∧
+    demoBy2.hint hn = .ok (.symbol ⟨244, 4, 4⟩) :=
+  C08_name_sound demoBy2 [99] _ (by decide +kernel)
+
+example : demoBy2.nameLinear [99] = demoBy2.hint 0 :=
+  (C08_name_linear demoBy2 [99]).2.2 0 (by decide +kernel) (fun h' hlt => by omega)
+
+example : ∃ h', h' < demoBy2.names.cnt ∧ demoBy2.nameStr h' = .ok [99] ∧
+    demoBy2.hint h' = .ok (.symbol ⟨244, 4, 4⟩) :=
+  C08_hint_name_sound demoBy2 2 [99] _ (by decide +kernel)
+
+example : ∃ h', h' < demoBy2.names.cnt ∧ demoBy2.nameStr h' = .ok [97] ∧
+    demoBy2.hint h' = .ok (.forward ⟨274, 4, 1⟩) :=
+  C08_import_sound demoBy2 (.byName 2 [97]) _ (by decide +kernel)
+
+/-- the failure direction on `demoBy` (base 5, four entries, entry 1 a hole, entry 2 a forwarder) and on
+an image without export directory -/
+example :
+    getExport demoView (.ordinal 4) = .err .bounds ∧ getExport demoView (.ordinal 9) = .err .bounds ∧
+    getExport demoView (.ordinal 6) = .err .null ∧ getExport demoView (.ordinal 7) = .ok (.forward ⟨274, 4, 1⟩) ∧
+    getProcAddress demoView (.ordinal 7) = .err .null ∧ getExport demoView (.name [98]) = .err .null ∧
+    getExport demoView (.name [100]) = .err .null := by decide +kernel
 
 end Pelite.Exports
